@@ -245,4 +245,9 @@ def r6(ctx):
     ctx.check(norm(sc.args[1]) == "length" and norm(ver[0].args[1]) == "expected", "C19.R6", vp, "the validated length and digest are the ones handed to scrypt")
 
 
-RULES = [("C19.R1", r1), ("C19.R2", r2), ("C19.R3", r3), ("C19.R4", r4), ("C19.R5", r5), ("C19.R6", r6)]
+def r_idioms(ctx):
+    from .common import repo_idioms
+    repo_idioms(ctx, "C19.R7", ('auth',))
+
+
+RULES = [("C19.R1", r1), ("C19.R2", r2), ("C19.R3", r3), ("C19.R4", r4), ("C19.R5", r5), ("C19.R6", r6), ("C19.R7", r_idioms)]
